@@ -109,6 +109,12 @@ EDIT_BOUNDS = {
     'quick': ([(NAMES, 3, 3)], None),
     'thorough': ([(NAMES6, 3, 4), (NAMES, 3, 3)], [(NAMES, 3, 3)]),
 }
+# reload family (snapshot read, Handle.clear(), both read again): trees with
+# at least one handle within these bounds
+RELOAD_BOUNDS = {
+    'quick': ([(NAMES, 3, 3)], [(NAMES, 3, 3)]),
+    'thorough': ([(NAMES6, 3, 4), (NAMES, 3, 3)], [(NAMES, 3, 3)]),
+}
 EDIT_SEP = '>>'
 EDIT_VERBS = ('add', 'replace', 'addmap', 'clear', 'deepen', 'mapover')
 DEEPEN_CHILD = 'a'        # map[name + '/a'] = handle
@@ -325,14 +331,21 @@ def describe(root):
 
 
 class Checker:
-    def __init__(self, root, snapshot, phase, level=None):
+    def __init__(self, root, snapshot, phase, level=None,
+                 snapshot_first=False, absent=True):
         self.root = root
         self.snap = snapshot
-        # 'fresh' | 'after_mutation_attempts' | 'after_edit' (a new snapshot
-        # taken after an edit of the map; level = 'root' | 'sub': which map
-        # was edited)
+        # 'fresh' | 'after_mutation_attempts' | 'after_handle_clear' (every
+        # handle of the tree was cleared after the snapshot had been read)
+        # | 'after_edit' (a new snapshot taken after an edit of the map;
+        # level = 'root' | 'sub': which map was edited)
         self.phase = phase
         self.level = level
+        # which side reads a handle name first (= triggers the load when the
+        # handle is not cached): the map (default) or the snapshot
+        self.snapshot_first = snapshot_first
+        # probe the names the map does not have as well
+        self.absent = absent
         # the reference description is cross-checked against the source map
         # whenever the map is freshly built or freshly edited
         self.verify_source = phase in ('fresh', 'after_edit')
@@ -370,7 +383,22 @@ class Checker:
             if is_handle:
                 handle = entry[1]
                 # the source map is the yardstick of the statement
-                src = m[name]
+                if self.snapshot_first:
+                    # the snapshot triggers the load, the map comes second
+                    self.calls += 1
+                    try:
+                        v_first = s_item[name]
+                    except Exception:
+                        v_first = _SKIPPED  # reported by the access below
+                    src = m[name]
+                    if v_first is not _SKIPPED and v_first is not src:
+                        self.fail('item_access',
+                                  f'snapshot[{self.where(node)}][{name!r}] '
+                                  f'read before the map is {v_first!r}, the '
+                                  f'map then gives {src!r}',
+                                  name=name_class(name), node=entry[2])
+                else:
+                    src = m[name]
                 if fresh:
                     full = '/'.join(node.path + (name,))
                     if (src is not handle() or m.get(name) is not handle
@@ -439,7 +467,7 @@ class Checker:
                        None if v_attr is _SKIPPED else v_attr, v_get)
 
         # -- names the map does not have
-        for name, ncls, ident in _PROBES:
+        for name, ncls, ident in (_PROBES if self.absent else ()):
             if name in entries:
                 continue
             if fresh and m.get(name) is not None:
@@ -555,9 +583,86 @@ def take_snapshot(root, **phase):
             non_identifier='non_identifier' in classes, **phase)
 
 
+# -- the same snapshot after Handle.clear() --------------------------------
+# Handle.clear() is the public way to drop a loaded resource (desper.switch
+# does it with world handles): the next access through the map loads a new
+# object and the snapshot - which was read in full before - has to yield that
+# very object as well, whichever of the two is read first after the clear.
+RELOAD_SEP = '~~'
+RELOAD_ORDERS = ('snapshot_first', 'map_first')
+
+
+def reload_family(boxes, style):
+    """Every tree of the family that has a handle, smallest first."""
+    return [f'{case}{RELOAD_SEP}reload' for case in family(boxes, style)
+            if any(f':{k}' in case for k in HANDLE_KINDS)]
+
+
+def reload_schedule(n_handles):
+    """(order, target) rounds: target None = every visible handle is
+    cleared, i = only the i-th one (document order) while the others stay
+    loaded."""
+    rounds = [(order, None) for order in RELOAD_ORDERS]
+    if n_handles > 1:
+        rounds += [(order, i) for i in range(n_handles)
+                   for order in RELOAD_ORDERS]
+    return rounds
+
+
+def run_reload_case(case):
+    tree_case, _, tail = case.partition(RELOAD_SEP)
+    if tail != 'reload':
+        raise HarnessError(f'cannot parse case {case!r}')
+    style, tree = parse(tree_case)
+    root = build(tree, style)
+    snap = take_snapshot(root)
+    # the snapshot is read in full first (every path, every access form)
+    warm = Checker(root, snap, 'fresh', absent=False)
+    warm.compare()
+    calls = 1 + warm.calls + warm.attr_calls
+    handles = [entry[1] for node in all_nodes(root)
+               for entry in node.entries.values() if entry[0] == 'h']
+    if not handles:
+        raise HarnessError(f'{case!r}: no handle to clear')
+    hits = {'reload_of_layered_handle': sum(
+        1 for node in all_nodes(root) for entry in node.entries.values()
+        if entry[0] == 'h' and entry[2] != 'h')}
+    if style == 'A':
+        hits['append_style_layer'] = 1
+    hits = {k: v for k, v in hits.items() if v}
+
+    def hit(name, n=1):
+        if n:
+            hits[name] = hits.get(name, 0) + n
+
+    for order, target in reload_schedule(len(handles)):
+        cleared = handles if target is None else [handles[target]]
+        before = []
+        for h in cleared:
+            if not h.cached:
+                raise HarnessError(f'{case!r}: {h!r} not loaded although '
+                                   f'the snapshot and the map were read')
+            before.append(h())
+            h.clear()       # the object map.get / snapshot.get hand out
+        hit('handle_cleared_after_read', len(cleared))
+        chk = Checker(root, snap, 'after_handle_clear',
+                      snapshot_first=order == 'snapshot_first', absent=False)
+        chk.compare()
+        calls += chk.calls + chk.attr_calls
+        hit('resource_reloaded_after_clear',
+            sum(1 for h, b in zip(cleared, before)
+                if h.cached and h() is not b))
+        hit('reload_' + order)
+        hit('reload_clears_every_handle' if target is None
+            else 'reload_clears_one_handle_of_several')
+    return {'calls': calls, 'hits': hits, 'key': case}
+
+
 def run_case(case):
     if EDIT_SEP in case:
         return run_edit_case(case)
+    if RELOAD_SEP in case:
+        return run_reload_case(case)
     style, tree = parse(case)
     root = build(tree, style)
     snap = take_snapshot(root)
@@ -701,11 +806,12 @@ def apply_edit(root, path, verb, name):
         else:
             sub.real = desper.ResourceMap()
             m[name] = sub.real
-        if not isinstance(sub.real, desper.ResourceMap) or name in m.handles:
-            raise HarnessError(f'{verb} of {where!r}: the handle name did '
-                               f'not become a sub-map of the source map '
-                               f'(C11 territory)')
-        hits.append('handle_name_left_handles')
+        if not isinstance(sub.real, desper.ResourceMap):
+            # nothing to hang the description on: source_divergence() sees
+            # it, the map itself then is the only yardstick
+            sub.real = None
+        elif name not in m.handles:
+            hits.append('handle_name_left_handles')
         node.entries[name] = ('m', sub)
     else:
         if node.entries:
@@ -847,6 +953,104 @@ def check_old_snapshot(root, desc, old, verb):
     return reads, moved
 
 
+# -- the map itself as the yardstick (no tree description involved) --------
+def source_divergence(root):
+    """None, or where the source map - as its own get() / handles / maps
+    answer - is not the tree the reference description says it is after the
+    edit (a name that is a handle in some layer AND a sub-map, a handle that
+    did not give way to the map assigned over it ...).  What a ResourceMap
+    holds after an edit is C11's subject; here it only decides which
+    yardstick the new snapshot is measured with."""
+    for node in all_nodes(root):
+        m = node.real
+        where = '/'.join(node.path) or '<root>'
+        if m is None:
+            return f'{where}: no sub-map where the edit should have made one'
+        for name, entry in node.entries.items():
+            got = m.get(name)
+            if entry[0] == 'h':
+                if got is not entry[1] or name in m.maps:
+                    return (f'{where}: {name!r} should be the handle '
+                            f'{entry[1]!r} only; get gives {got!r}, maps has '
+                            f'it: {name in m.maps}')
+            elif (entry[1].real is None or got is not entry[1].real
+                  or name in m.handles):
+                return (f'{where}: {name!r} should be a sub-map only; get '
+                        f'gives {got!r}, some handles layer has it: '
+                        f'{name in m.handles}')
+        for name in NAMES:
+            if name not in node.entries and (name in m.handles
+                                             or name in m.maps):
+                return f'{where}: {name!r} should be absent'
+    return None
+
+
+class MapMirror:
+    """Map-driven comparison of a snapshot: the names are those the source
+    map lists itself (every handles layer, maps; with ``probes`` the other
+    alphabet / foreign names too), the expected answer of each name is what
+    the map answers NOW to [name] and get(name), one step at a time, and the
+    walk descends where the map's [name] is a ResourceMap.  Clauses and
+    signature features are those of Checker in the same phase."""
+
+    def __init__(self, phase, level, probes):
+        self.features = {'phase': phase, 'level': level}
+        self.probes = probes
+        self.calls = 0
+        self.maps = 0
+
+    def fail(self, clause, detail):
+        raise Violation(clause, detail, **self.features)
+
+    def walk(self, m, curs, path=()):
+        """curs: the sub-snapshots of ``m`` reached by chained [] / getattr
+        / get (_SKIPPED: a name on the way is not an identifier)."""
+        static = desper.StaticResourceMap
+        where = '/'.join(path) or '<root>'
+        self.maps += 1
+        names = list(dict.fromkeys(
+            [n for layer in m.handles.maps for n in layer] + list(m.maps)))
+        if self.probes:
+            names += [n for n in NAMES + FOREIGN if n not in names]
+        for name in names:
+            if m.split_char in name:
+                raise HarnessError(f'composite name {name!r} in {where}')
+            try:
+                v = m[name]
+            except KeyError:
+                by_item = _ABSENT
+            else:
+                by_item = ('map',) if isinstance(v, desper.ResourceMap) \
+                    else ('obj', v)
+            g = m.get(name)
+            by_get = _ABSENT if g is None else \
+                ('map',) if isinstance(g, desper.ResourceMap) else ('obj', g)
+            nxt = []
+            for form, cur in enumerate(curs):
+                if cur is _SKIPPED or (form == 1 and not name.isidentifier()):
+                    nxt.append(_SKIPPED)
+                    continue
+                want = by_get if form == 2 else by_item
+                now = _read(cur, name, form)
+                self.calls += 1
+                if want[0] == 'map':
+                    ok = now[0] == 'obj' and isinstance(now[1], static)
+                else:
+                    ok = _same(want, now)
+                if not ok:
+                    self.fail(
+                        'absent_name_fails' if want is _ABSENT
+                        else FORMS[form] + '_access',
+                        f'{FORMS[form]} access of {name!r} on '
+                        f'snapshot[{where}] gives {now!r}, the map itself '
+                        f'answers {want!r} there')
+                nxt.append(now[1] if want[0] == 'map' else _SKIPPED)
+            if by_item[0] == 'map':
+                if by_get[0] != 'map':
+                    nxt[2] = _SKIPPED
+                self.walk(v, nxt, path + (name,))
+
+
 def run_edit_case(case):
     tree_case, _, edit = case.partition(EDIT_SEP)
     style, tree = parse(tree_case)
@@ -857,19 +1061,34 @@ def run_edit_case(case):
     edit_hits = apply_edit(root, path, verb, name)
     level = 'sub' if path else 'root'
     snap = take_snapshot(root, phase='after_edit', level=level)
+    hits = dict.fromkeys(edit_hits, 1)
+    if style == 'A':
+        hits['append_style_layer'] = 1
+    diverged = source_divergence(root)
+    mirror = MapMirror('after_edit', level, probes=diverged is not None)
+    if diverged is not None:
+        # the map is not the tree of the description any more: the snapshot
+        # is measured with the map alone, absent names included; the checks
+        # that lean on the description are void for this case
+        mirror.walk(root.real, [snap, snap, snap])
+        hits['info_source_map_outside_tree_description'] = 1
+        hits['map_driven_walk'] = mirror.maps
+        return {'calls': 2 + mirror.calls, 'hits': hits, 'key': case}
     chk = Checker(root, snap, 'after_edit', level=level)
     chk.compare()
+    # second opinion that does not lean on the description (names the map
+    # lists itself; the absent ones were probed just above)
+    mirror.walk(root.real, [snap, snap, snap])
+    hits['map_driven_walk'] = mirror.maps
     # the old snapshot: nothing was set or deleted on it
     reads, moved = check_old_snapshot(root, desc, old, verb)
-    hits = dict.fromkeys(edit_hits, 1)
     hits['old_snapshot_reread'] = reads
     if 'handle_name_left_handles' in hits:
         hits['old_snapshot_reread_of_handle_turned_map'] = 1
     if moved:
         hits['info_old_snapshot_answers_moved_with_map'] = moved
-    if style == 'A':
-        hits['append_style_layer'] = 1
-    calls = 3 + chk.calls + chk.attr_calls + chk.absent_calls + reads
+    calls = (3 + chk.calls + chk.attr_calls + chk.absent_calls + reads
+             + mirror.calls)
     return {'calls': calls, 'hits': hits, 'key': case}
 
 
@@ -887,6 +1106,12 @@ def edit_parts(tier):
     if append is not None:
         d['resnapshot-after-edit-append-layer'] = ('A', append)
     return d
+
+
+def reload_parts(tier):
+    main, append = RELOAD_BOUNDS[tier]
+    return {'reload-after-handle-clear': ('I', main),
+            'reload-after-handle-clear-append-layer': ('A', append)}
 
 
 def run(tier, rep):
@@ -945,7 +1170,14 @@ def run(tier, rep):
                      edit_turns_handle_into_map=1,
                      edit_turns_layered_handle_into_map=1,
                      handle_name_left_handles=1, old_snapshot_reread=1,
-                     old_snapshot_reread_of_handle_turned_map=1)
+                     old_snapshot_reread_of_handle_turned_map=1,
+                     handle_cleared_after_read=1,
+                     resource_reloaded_after_clear=1,
+                     reload_snapshot_first=1, reload_map_first=1,
+                     reload_clears_every_handle=1,
+                     reload_clears_one_handle_of_several=1,
+                     reload_of_layered_handle=1,
+                     map_driven_walk=1)
     for part, (style, boxes) in parts(tier).items():
         cases = family(boxes, style)
         kernel.enumerate_cases(
@@ -969,6 +1201,22 @@ def run(tier, rep):
                         'frozen or live',
                         edited_maps='the root and every sub-map',
                         bounds_apply_to='the tree before the edit'),
+            chunk=max(200, len(cases) // 400))
+
+
+    for part, (style, boxes) in reload_parts(tier).items():
+        cases = reload_family(boxes, style)
+        kernel.enumerate_cases(
+            run_reload_case, cases, rep, part,
+            params=dict(style=style, depth=DEPTH,
+                        family_is_union_of=boxes_text(boxes),
+                        trees='those with at least one handle',
+                        handle_kinds=list(HANDLE_KINDS),
+                        read_before_clear='every path by [] / getattr / get',
+                        rounds='every visible handle cleared; then, with '
+                        'several handles, each one alone; each in the orders '
+                        + ' / '.join(RELOAD_ORDERS),
+                        absent_names_probed=False),
             chunk=max(200, len(cases) // 400))
 
 
